@@ -477,6 +477,162 @@ fn dispatch_grid(thorough: bool) -> (u64, Vec<Violation>) {
     (n, out)
 }
 
+/// `match` with several value arms runs the first arm, top to bottom, whose value equals the
+/// scrutinee by content - whatever the run-time type tags of the two (empty arrays produced
+/// differently, containers of them) - with the arm values written as literals and passed at run time.
+fn value_arm_grid() -> (u64, Vec<Violation>) {
+    use crate::props::c19::content_eq;
+    const VALS: &[&str] = &[
+        "1", "2", "1.0", "\"1\"", "true", "()", "[]", "[0; 0]", "[\"\"; 0]", "[1]", "[1.0]", "[1, 2][0:1]", "[[0; 0]]", "[[]]",
+        "([0; 0], 1)", "([], 1)", "struct{ a := [0; 0] }", "struct{ a := [] }",
+    ];
+    let interp = Interpreter::with_stdlib();
+    let make = |src: &str| -> Variable { Code::parse(&interp, src).expect("C12 value recipe").exec().expect("C12 value recipe") };
+    let vals: Vec<Variable> = VALS.iter().map(|s| make(s)).collect();
+    let mut out = Vec::new();
+    let mut n = 0u64;
+    let run_time = match guard(|| Code::parse(&interp, "f := (v: any, a: any, b: any) -> any { return match v { (a) => 1, (b) => 2, => 0, } }").map(|c| c.exec())) {
+        Ok(Ok(Ok(Variable::Function(f)))) => Some(f),
+        _ => None,
+    };
+    if run_time.is_none() {
+        out.push(Violation { sig: "C12|value-arms|program-fails".into(), detail: json!({"kind": "program", "stdlib": true, "text": "match with run-time value arms"}) });
+    }
+    for (i1, a1) in VALS.iter().enumerate() {
+        for (i2, a2) in VALS.iter().enumerate() {
+            let text = format!("f := (v: any) -> any {{ return match v {{ ({a1}) => 1, ({a2}) => 2, => 0, }} }}");
+            let lit = match guard(|| Code::parse(&interp, &text).map(|c| c.exec())) {
+                Ok(Ok(Ok(Variable::Function(f)))) => Some(f),
+                _ => {
+                    out.push(Violation { sig: format!("C12|value-arms|program-fails|{a1};{a2}"), detail: json!({"kind": "program", "stdlib": true, "text": text}) });
+                    None
+                }
+            };
+            for (is, s) in VALS.iter().enumerate() {
+                let want = if content_eq(&vals[is], &vals[i1]) {
+                    "1"
+                } else if content_eq(&vals[is], &vals[i2]) {
+                    "2"
+                } else {
+                    "0"
+                };
+                let forms = [("literal-arms", lit.clone(), vec![make(s)]), ("run-time-arms", run_time.clone(), vec![make(s), make(a1), make(a2)])];
+                for (form, f, args) in forms {
+                    let Some(f) = f else { continue };
+                    n += 1;
+                    let got = match guard(|| f.clone().create_call(args).map(|c| c.exec())) {
+                        Ok(Ok(Ok(r))) => canon(&r),
+                        Ok(Ok(Err(e))) => format!("error:{}", core::exec_error_kind(&e)),
+                        Ok(Err(e)) => format!("host-rejected:{}", core::error_kind(&e)),
+                        Err(Stop::Panic(p)) => format!("PANIC {} @{}", p.short_msg(), p.file()),
+                        Err(Stop::Exhausted) => continue,
+                    };
+                    if got != want {
+                        out.push(Violation {
+                            sig: format!("C12|value-arms|{form}|scrutinee={s}|arms={a1};{a2}|expected={want}"),
+                            detail: json!({"kind": "host_call", "program": if form == "literal-arms" { text.clone() } else { "f := (v: any, a: any, b: any) -> any { return match v { (a) => 1, (b) => 2, => 0, } }".to_string() }, "args": if form == "literal-arms" { vec![s.to_string()] } else { vec![s.to_string(), a1.to_string(), a2.to_string()] }, "expected": want, "observed": got}),
+                        });
+                    }
+                }
+            }
+        }
+    }
+    (n, out)
+}
+
+/// A failing operation on values captured by a function value fails when it is reached and
+/// only then: creating the function value evaluates nothing of its body (so a branch that is not
+/// chosen, or a function that is never called, cannot make the program fail), and reaching the
+/// operation gives the documented error. Shared by C07 ("only the chosen branch is evaluated").
+pub fn unreached_failures(prop: &str) -> (u64, Vec<Violation>) {
+    const OPS: &[(&str, &str, &str)] = &[
+        ("10 / d", "0", "ZeroDivision"),
+        ("10 % d", "0", "ZeroModulo"),
+        ("1 << d", "64", "OverflowShift"),
+        ("1 >> d", "-1", "OverflowShift"),
+        ("2 ** d", "-1", "NegativeExponent"),
+        ("[1, 2][d]", "5", "IndexOutOfBounds"),
+        ("[0; d]", "-1", "NegativeLength"),
+        ("\"ab\"[d]", "7", "IndexOutOfBounds"),
+    ];
+    // (name, body of (c2: bool, c3: any) -> any with OP, can be reached)
+    const GUARDS: &[(&str, &str, bool)] = &[
+        ("if", "if c2 { return OP }; return -1", true),
+        ("if-else value", "r := if c2 { OP } else { -1 }; return r", true),
+        ("match value arm", "r := match c2 { true => OP, => -1, }; return r", true),
+        ("match type arm", "r := match c3 { q: int => OP, => -1, }; return r", true),
+        ("if-set", "if q: int = c3 { return OP }; return -1", true),
+        ("&& rhs", "if c2 && (OP) == (OP) { return 0 }; return -1", true),
+        ("|| rhs", "if !c2 || (OP) == (OP) { return -1 }; return 0", true),
+        ("while", "while c2 { return OP }; return -1", true),
+        ("for over nothing", "for e in [0; 0]~ { return OP }; return -1", false),
+        ("uncalled function", "h := () -> any { return OP }; return -1", false),
+        ("after return", "if !c2 { return -1 }; return OP", true),
+    ];
+    let interp = Interpreter::with_stdlib();
+    let mut out = Vec::new();
+    let mut n = 0u64;
+    for (op, bad, kind) in OPS {
+        for (gname, gbody, reachable) in GUARDS {
+            let body = gbody.replace("OP", op);
+            // (a) created and called inside one function; (b) returned to the host and called there
+            let inner = format!("f := (d: int) -> any {{ g := (c2: bool, c3: any) -> any {{ {body} }}; return (g(false, \"s\"), 1) }}");
+            let outer = format!("f := (d: int) -> (bool, any) -> any {{ return (c2: bool, c3: any) -> any {{ {body} }} }}");
+            let bad_v = Code::parse(&interp, bad).unwrap().exec().unwrap();
+            let define = |text: &str| match guard(|| Code::parse(&interp, text).map(|c| c.exec())) {
+                Ok(Ok(Ok(Variable::Function(f)))) => Ok(f),
+                other => Err(format!("{:?}", other.map(|r| r.map(|x| x.map(|v| canon(&v)))))),
+            };
+            let call = |f: &std::sync::Arc<simplesl::function::Function>, args: Vec<Variable>| match guard(|| f.clone().create_call(args).map(|c| c.exec())) {
+                Ok(Ok(Ok(r))) => Ok(r),
+                Ok(Ok(Err(e))) => Err(format!("error:{}", core::exec_error_kind(&e))),
+                Ok(Err(e)) => Err(format!("host-rejected:{}", core::error_kind(&e))),
+                Err(Stop::Panic(p)) => Err(format!("PANIC {} @{}", p.short_msg(), p.file())),
+                Err(Stop::Exhausted) => Err("exhausted".into()),
+            };
+            let mut push = |what: &str, text: &str, args: &str, want: &str, got: String| {
+                out.push(Violation {
+                    sig: format!("{prop}|unreached-failure|{what}|guard={gname}|op={op}"),
+                    detail: json!({"kind": "host_call", "program": text, "args": args, "expected": want, "observed": got}),
+                });
+            };
+            n += 1;
+            match define(&inner) {
+                Err(e) => push("program-fails", &inner, "", "accepted", e),
+                Ok(f) => {
+                    let got = call(&f, vec![bad_v.clone()]).map(|v| canon(&v)).unwrap_or_else(|e| e);
+                    if got != "(-1, 1)" {
+                        push("not-reached-but-fails", &inner, bad, "(-1, 1)", got);
+                    }
+                }
+            }
+            n += 1;
+            match define(&outer) {
+                Err(e) => push("program-fails", &outer, "", "accepted", e),
+                Ok(f) => match call(&f, vec![bad_v.clone()]) {
+                    Ok(Variable::Function(g)) => {
+                        let got = call(&g, vec![Variable::Bool(false), Variable::String("s".into())]).map(|v| canon(&v)).unwrap_or_else(|e| e);
+                        if got != "-1" {
+                            push("not-reached-but-fails", &outer, &format!("f({bad})(false, \"s\")"), "-1", got);
+                        }
+                        if *reachable {
+                            n += 1;
+                            let got = call(&g, vec![Variable::Bool(true), Variable::Int(1)]).map(|v| canon(&v)).unwrap_or_else(|e| e);
+                            let want = format!("error:{kind}");
+                            if got != want {
+                                push("reached-but-does-not-fail-as-documented", &outer, &format!("f({bad})(true, 1)"), &want, got);
+                            }
+                        }
+                    }
+                    Ok(other) => push("not-reached-but-fails", &outer, &format!("f({bad})"), "a function value", canon(&other)),
+                    Err(e) => push("creating-the-function-value-fails", &outer, &format!("f({bad})"), "a function value", e),
+                },
+            }
+        }
+    }
+    (n, out)
+}
+
 #[derive(Default)]
 struct Acc {
     programs: u64,
@@ -628,6 +784,10 @@ pub fn run(tier: &str) -> i32 {
     // run-time type of the value matches T, for every (static type, value, T)
     let dispatch = core::on_big_stack(|| dispatch_grid(thorough));
     report.violations(dispatch.1);
+    let value_arms = core::on_big_stack(value_arm_grid);
+    report.violations(value_arms.1);
+    let unreached = core::on_big_stack(|| unreached_failures("C12"));
+    report.violations(unreached.1);
     samples.push(|| json!({"program": program(&all[all.len() / 2]), "shape": shape(&all[all.len() / 2])}));
     samples.push(|| json!({"shape": shape(&all[all.len() - 1])}));
     let Acc { programs, runs, rejected, logs, violations } = acc;
@@ -642,6 +802,8 @@ pub fn run(tier: &str) -> i32 {
         "max_nesting_depth": max_depth,
         "generated_programs_not_accepted": rejected,
         "type_dispatch_cases": dispatch.0,
+        "value_arm_cases": value_arms.0,
+        "unreached_failure_cases": unreached.0,
         "illegal_placements": ILLEGAL.len(),
         "legal_placements": LEGAL.len(),
         "distinct_outcomes": logs.len(),
